@@ -24,6 +24,8 @@
 //	          1..2 requests each, all form sequences, interleaved request by request.
 //	reconnect (thorough) plaintext inside CONNECT (1..2 requests) followed by a second CONNECT (other authority) on the
 //	          same connection whose tunnel carries TLS or plaintext (1..2 requests), all form sequences.
+//	hostless, traffic, upfail, hsfail, variant, downstream: see extra() and AUDIT.md.
+//	innerplain, hsabort (round 7): see ext7.go.
 //
 // Every history is run once through the real proxy (real loopback TCP, real crypto/tls client, the proxy's default
 // http.Transport trusting the harness origin's certificate, SetDial -> in-process origin whose acceptor sniffs the
@@ -130,6 +132,10 @@ type Phase struct {
 	Kinds     []string `json:"kinds,omitempty"` // per request: get | post_cl | post_chunked | post_100 (default get)
 	Pad       int      `json:"pad,omitempty"`   // bytes of padding header in every request
 	Resp      string   `json:"resp,omitempty"`  // response the origin is asked for: "" (small) | cl5000 | cl40000 | chunked40000
+	// HS (round 7): the client starts a TLS handshake in this tunnel that the proxy cannot complete ("" = a normal
+	// one): ecdsa_only | tls11_only | bad_hello (see hsProfiles). The client waits for the proxy's alert and then goes
+	// on in cleartext on the same connection: Forms are the requests it sends directly, later phases further CONNECTs.
+	HS string `json:"hs,omitempty"`
 }
 
 func (p Phase) kind(idx int) string {
@@ -176,6 +182,9 @@ func (h History) String() string {
 			if p.Spell != "" {
 				x += " spell=" + p.Spell
 			}
+			if p.HS != "" {
+				x = fmt.Sprintf("%s{handshake-the-proxy-cannot-complete(%s) then cleartext:%s", p.Authority, p.HS, strings.Join(p.Forms, ","))
+			}
 			if p.Kinds != nil {
 				x += fmt.Sprintf(" kinds=%s pad=%d resp=%s", strings.Join(p.Kinds, ","), p.Pad, p.Resp)
 			}
@@ -185,13 +194,16 @@ func (h History) String() string {
 		if h.Space == "config" || h.Space == "variant" {
 			s += fmt.Sprintf(" tls=%s sni=%s early=%v", sc.TLS, sc.SNI, sc.Early)
 		}
+		if (h.Space == "innerplain" || h.Space == "hsabort") && sc.Early {
+			s += " (first request of every cleartext tunnel in the segment of its CONNECT)"
+		}
 		if sc.Pipelined {
 			s += " pipelined"
 		}
 		if sc.Untrusting {
 			s += " client-distrusts-CA then=" + sc.After
 		}
-		if h.Space == "nested" {
+		if h.nestedLike() {
 			s = fmt.Sprintf("outerTLS(%s,sni=%s){CONNECT %s}", h.Outer, outerSNI, s)
 		}
 		cs = append(cs, s)
@@ -222,7 +234,13 @@ type item struct {
 }
 
 // hasConnect: the client opens tunnels with CONNECT (otherwise it talks TLS to a transparent listener directly).
-func (h History) hasConnect() bool { return h.Space == "nested" || !tlsListener(h.Listener) }
+func (h History) hasConnect() bool { return h.nestedLike() || !tlsListener(h.Listener) }
+
+// nestedLike: the client first speaks TLS to the proxy itself (a transparent-TLS listener) and then sends CONNECT
+// requests over that outer connection (nested space; round 7: innerplain / hsabort on TLS listeners).
+func (h History) nestedLike() bool {
+	return h.Space == "nested" || ((h.Space == "innerplain" || h.Space == "hsabort") && tlsListener(h.Listener))
+}
 
 func tlsListener(l string) bool { return l != "plain" && l != "shaped" }
 
@@ -243,6 +261,9 @@ func (h History) items(ci int) []item {
 }
 
 func (h History) entry(ci, phase int) string {
+	if e := h.entry7(ci, phase); e != "" {
+		return e
+	}
 	switch {
 	case h.Space == "nested":
 		return "nested_tls"
@@ -297,6 +318,15 @@ func (h History) attrs(ci int, it item) map[string]string {
 		a["first"] = sc.Phases[0].Inner
 	case "nested":
 		a["outer"] = h.Outer
+	case "hsabort":
+		for _, p := range sc.Phases {
+			if p.HS != "" {
+				a["hs"] = p.HS
+			}
+		}
+		a["early"] = strconv.FormatBool(sc.Early)
+	case "innerplain":
+		a["early"] = strconv.FormatBool(sc.Early)
 	case "pair":
 		a["peer"] = h.Conns[1-ci].Phases[0].Inner
 	}
@@ -666,6 +696,7 @@ func extra(thorough bool, add func(History)) {
 			}
 		})
 	}
+	round7(thorough, add)
 }
 
 // ---- observations -------------------------------------------------------------------------------------------
@@ -1546,6 +1577,7 @@ type client struct {
 	dead     bool
 	finished bool
 	sent     map[int]bool // requests already written together with the CONNECT head
+	mayFail  bool         // the handshake in progress is one the proxy cannot complete: the client goes on afterwards
 	raw      net.Conn
 	stream   net.Conn
 	sbr      *bufio.Reader
@@ -1565,7 +1597,7 @@ func (c *client) open(addr string) {
 	c.raw, c.stream, c.sbr = raw, raw, bufio.NewReader(raw)
 	raw.SetDeadline(time.Now().Add(ioDeadline))
 	switch {
-	case c.h.Space == "nested":
+	case c.h.nestedLike():
 		po := &PhaseOut{Attempted: true}
 		c.set(func() { c.out.Outer = po })
 		cfg := &tls.Config{ServerName: outerSNI, RootCAs: c.e.mitmRoots}
@@ -1588,6 +1620,7 @@ func (c *client) tlsConfig(phase int) *tls.Config {
 	if c.sc.Untrusting {
 		cfg.RootCAs = x509.NewCertPool() // trusts nobody: the forged certificate is rejected
 	}
+	applyHSProfile(cfg, c.sc.Phases[phase].HS)
 	switch c.sc.TLS {
 	case "alpn_http11":
 		cfg.NextProtos = []string{"http/1.1"}
@@ -1605,7 +1638,7 @@ func (c *client) handshake(po *PhaseOut, cfg *tls.Config, under net.Conn) bool {
 	tc := tls.Client(under, cfg)
 	if err := tc.Handshake(); err != nil {
 		c.set(func() { po.HandshakeErr = err.Error() })
-		if !(c.sc.Untrusting && c.sc.After == "plaintext") {
+		if !(c.sc.Untrusting && c.sc.After == "plaintext") && !c.mayFail {
 			c.dead = true
 		}
 		return false
@@ -1634,6 +1667,9 @@ func (c *client) step() {
 		c.set(func() { c.out.Phases[it.phase].Attempted = true })
 		head := fmt.Sprintf("CONNECT %s HTTP/1.1\r\nHost: %s\r\nX-C05-Conn: %d\r\nX-C05-Seq: %d\r\n\r\n", ph.Authority, ph.Authority, c.ci, it.seq)
 		early := c.sc.Early && it.phase == 0
+		if c.h.Space == "innerplain" || c.h.Space == "hsabort" {
+			early = c.sc.Early && ph.Inner == "plain" // round 7: every cleartext tunnel of the connection starts with early data
+		}
 		if early && ph.Inner == "tls" {
 			ec := &earlyConn{Conn: c.stream, br: c.sbr, head: []byte(head)}
 			c.handshake(&c.out.Phases[it.phase], c.tlsConfig(it.phase), ec)
@@ -1674,7 +1710,9 @@ func (c *client) step() {
 			c.dead = true
 			return
 		}
-		if ph.Inner == "tls" {
+		if ph.HS != "" {
+			c.failingHandshake(it.phase)
+		} else if ph.Inner == "tls" {
 			c.handshake(&c.out.Phases[it.phase], c.tlsConfig(it.phase), &bufConn{c.stream, c.sbr})
 		}
 		return
@@ -1900,6 +1938,10 @@ type judgeStats struct {
 	evals    int64
 	requests int64
 	obsKeys  map[string]bool
+
+	failedHS  int64 // round 7: tunnels whose TLS handshake failed as scripted
+	enclosed  int64 // round 7: requests judged as read from an enclosing TLS connection
+	notServed int64 // round 7: CONNECTs after a failed handshake that the proxy did not answer (not a violation)
 }
 
 func judge(o *Outcome, st *judgeStats) []V {
@@ -1965,7 +2007,7 @@ func judge(o *Outcome, st *judgeStats) []V {
 			addV(E0, "harness_setup_error", hist, "%s", co.DialErr)
 			continue
 		}
-		if h.Space == "nested" {
+		if h.nestedLike() {
 			check()
 			if co.Outer == nil || co.Outer.HandshakeErr != "" {
 				msg := "not attempted"
@@ -1977,8 +2019,13 @@ func judge(o *Outcome, st *judgeStats) []V {
 			}
 		}
 		items := h.items(ci)
-		undecrypted := map[int]bool{} // tunnels whose TLS handshake the client aborted
-		connSession := -2             // session of the first message seen on this connection
+		// Round 7: how the requests of each tunnel are judged follows from what the CLIENT observed on the connection
+		// (tls: read from this tunnel's completed TLS connection; enclosed: cleartext tunnel / failed handshake INSIDE a
+		// completed TLS connection, refs = that connection; undecrypted: after a handshake that failed, nothing on the
+		// connection was ever decrypted; plain: a tunnel that does not begin with a TLS handshake).
+		modes, refs := phaseModes(h, ci, co)
+		failedBefore := false // an earlier tunnel of this connection ended in a failed TLS handshake
+		connSession := -2     // session of the first message seen on this connection
 		var connectObs *ReqObs
 		stop := false
 		for k := 0; k < len(items) && !stop; k++ {
@@ -1986,7 +2033,8 @@ func judge(o *Outcome, st *judgeStats) []V {
 			ph := sc.Phases[it.phase]
 			po := &co.Phases[it.phase]
 			E := h.entry(ci, it.phase)
-			tlsIn := ph.Inner == "tls"
+			tlsIn := modes[it.phase] == "tls"
+			enclosed := modes[it.phase] == "enclosed"
 			pat := h.attrs(ci, item{})
 
 			if it.connect || (!h.hasConnect() && k == 0) {
@@ -1998,6 +2046,12 @@ func judge(o *Outcome, st *judgeStats) []V {
 				if it.connect {
 					check()
 					if po.ConnectErr != "" || po.ConnectStatus != 200 {
+						if failedBefore {
+							// the statement does not oblige the proxy to keep serving a connection on which a TLS handshake failed
+							st.notServed++
+							stop = true
+							continue
+						}
 						if !(po.HandshakeErr != "" && po.ConnectStatus == 0 && po.ConnectErr == "") {
 							addV(E, "connect_not_answered_200", pat, "CONNECT %s answered status=%d err=%q", ph.Authority, po.ConnectStatus, po.ConnectErr)
 							stop = true
@@ -2018,11 +2072,13 @@ func judge(o *Outcome, st *judgeStats) []V {
 						}
 					}
 				}
-				if tlsIn {
+				if ph.Inner == "tls" {
 					check()
-					if po.HandshakeErr != "" && sc.Untrusting {
-						// expected: this client rejects the forged certificate. What it sends afterwards was never decrypted.
-						undecrypted[it.phase] = true
+					if po.HandshakeErr != "" && (sc.Untrusting || ph.HS != "") {
+						// expected: this client rejects the forged certificate, or offers a handshake the proxy cannot
+						// complete. What it sends afterwards was not decrypted from THIS tunnel.
+						failedBefore = true
+						st.failedHS++
 						if it.connect {
 							continue
 						}
@@ -2058,16 +2114,20 @@ func judge(o *Outcome, st *judgeStats) []V {
 			st.requests++
 			ob := find(ci, it.seq)
 			check()
+			if ob == nil && modes[it.phase] == "undecrypted" {
+				st.notServed++
+				continue // whether the proxy serves cleartext that follows a failed handshake at all is not stated
+			}
 			if ob == nil {
 				addV(E, "request_not_presented_to_modifiers", at, "request %d (%s) of the tunnel was sent but the request modifier never saw it; client: status=%d err=%q", it.idx, it.form, cr.Status, cr.Err)
 				continue
 			}
-			if undecrypted[it.phase] {
+			if modes[it.phase] == "undecrypted" {
 				// Nothing was decrypted in this tunnel (the handshake failed): whatever the proxy does with cleartext sent
 				// afterwards, it cannot present it as read from a TLS connection.
 				check()
 				if ob.Secure || ob.TLS || ob.Scheme == "https" {
-					addV(E, "undecrypted_request_presented_as_secure", at, "request %d (%s) was sent in cleartext after the client aborted the TLS handshake, but modifiers see scheme=%q secure=%v req.TLS!=nil=%v", it.idx, it.form, ob.Scheme, ob.Secure, ob.TLS)
+					addV(E, "undecrypted_request_presented_as_secure", at, "request %d (%s) was sent in cleartext after the TLS handshake of the tunnel had failed (nothing on the connection was ever decrypted), but modifiers see scheme=%q secure=%v req.TLS!=nil=%v", it.idx, it.form, ob.Scheme, ob.Secure, ob.TLS)
 				}
 				continue
 			}
@@ -2077,7 +2137,36 @@ func judge(o *Outcome, st *judgeStats) []V {
 				addV(E, "request_presented_more_than_once", at, "request %d seen %d times by the request modifier", it.idx, c)
 			}
 			hostBad := false
-			if tlsIn {
+			if enclosed {
+				// Round 7. The request was read from a decrypted connection (the enclosing MITM'd tunnel / transparent-TLS
+				// connection `refs`), but travels inside a CONNECT tunnel that did not begin with a (completed) TLS
+				// handshake. "Every request decrypted from a MITM'd CONNECT tunnel - the first and every later one on the
+				// connection" demands the connection's TLS state; the sentence about non-TLS tunnels does not speak about
+				// req.TLS. Scheme and the secure flag are claimed by both sentences with opposite values: not judged,
+				// except that a request presented as https must never leave in cleartext.
+				ep := refs[it.phase]
+				st.enclosed++
+				check()
+				if !ob.TLS {
+					addV(E, "tls_state_missing", at, "request %d (%s) was read from the client's TLS session (inside a cleartext CONNECT tunnel opened within it) but req.TLS == nil in the request modifier (scheme=%s secure=%v)", it.idx, it.form, ob.Scheme, ob.Secure)
+				} else if ob.TLSEKM != ep.ClientEKM || !ob.TLSDone || ob.TLSVersion != ep.TLSVersion || ob.TLSCipher != ep.TLSCipher || !strings.EqualFold(ob.TLSName, ep.TLSName) {
+					addV(E, "tls_state_not_of_this_connection", at, "request %d (%s): req.TLS is not the state of the TLS connection the request was read from: ServerName %q vs client %q, keying material %s vs %s, version %x vs %x, cipher %x vs %x, handshake complete=%v", it.idx, it.form, ob.TLSName, ep.TLSName, ob.TLSEKM, ep.ClientEKM, ob.TLSVersion, ep.TLSVersion, ob.TLSCipher, ep.TLSCipher, ob.TLSDone)
+				} else if ob.ResSeen && !ob.ResTLS {
+					addV(E, "tls_state_missing_at_response_modifier", at, "request %d (%s): req.TLS == nil when the response modifier runs", it.idx, it.form)
+				}
+				check()
+				if !ob.HasCtx {
+					addV(E, "no_context_for_request", at, "request %d (%s): martian.NewContext(req) is nil in the request modifier", it.idx, it.form)
+				}
+				check()
+				if it.form == "nohost" && ob.URLHost != "" && !hostOK(ph.Authority, ob.URLHost) {
+					hostBad = true
+					addV(E, "plaintext_url_host_invented", at, "request %d has no Host header inside the tunnel to %s, but the modifier sees URL.Host=%q, which is neither empty nor the tunnel authority", it.idx, ph.Authority, ob.URLHost)
+				} else if it.form != "nohost" && !hostOK(ph.Authority, ob.URLHost) {
+					hostBad = true
+					addV(E, "url_host_not_as_given", at, "request %d (%s) names host %s but the modifier sees URL.Host=%q", it.idx, it.form, hostGiven(ph.Authority), ob.URLHost)
+				}
+			} else if tlsIn {
 				// "presented to modifiers with scheme https"
 				check()
 				if ob.Scheme != "https" {
@@ -2182,6 +2271,14 @@ func judge(o *Outcome, st *judgeStats) []V {
 				}
 				judgedHost := !(it.form == "nohost" && !(tlsIn && h.hasConnect())) // no fallback authority is stated there
 				switch {
+				case enclosed && ob.Scheme == "https" && clear > 0:
+					addV(E, "forwarded_upstream_in_cleartext", at, "request %d (%s) was presented to modifiers as https but reached the origin over a cleartext connection (dials: %v)", it.idx, it.form, o.Dials)
+				case enclosed:
+					if len(up) > 1 {
+						addV(E, "forwarded_more_than_once", at, "request %d (%s) reached the origin %d times", it.idx, it.form, len(up))
+					} else if len(up) == 0 && it.form != "nohost" && !hostBad && h.Origin == "" {
+						addV(E, "not_forwarded_upstream", at, "request %d (%s) never reached the origin (client status=%d err=%q, dials: %v)", it.idx, it.form, cr.Status, cr.Err, o.Dials)
+					}
 				case tlsIn && clear > 0:
 					addV(E, "forwarded_upstream_in_cleartext", at, "request %d (%s) decrypted from the TLS tunnel reached the origin over a cleartext connection (dials: %v)", it.idx, it.form, o.Dials)
 				case !tlsIn && overTLS > 0:
@@ -2201,7 +2298,7 @@ func judge(o *Outcome, st *judgeStats) []V {
 					kind = "tls"
 				}
 				switch {
-				case cr.Err != "" && tlsIn:
+				case cr.Err != "" && (tlsIn || enclosed):
 					addV(E, "response_not_inside_client_tls_session", at, "request %d (%s): the client could not read a response through its TLS session: %s", it.idx, it.form, cr.Err)
 				case cr.Err != "":
 					addV(E, "plaintext_response_not_delivered", at, "request %d (%s): the client could not read a response: %s", it.idx, it.form, cr.Err)
@@ -2237,7 +2334,7 @@ func judge(o *Outcome, st *judgeStats) []V {
 					hijackerOK := ho.Read == strconv.Quote(ack)
 					if !clientOK || !hijackerOK {
 						layer := "its TLS session"
-						if !tlsIn {
+						if !tlsIn && !enclosed {
 							layer = "the tunnel"
 						}
 						addV(E, "hijacker_not_on_decrypted_connection", hat,
@@ -2252,7 +2349,7 @@ func judge(o *Outcome, st *judgeStats) []V {
 	allTLS := true
 	for _, sc := range h.Conns {
 		for _, p := range sc.Phases {
-			if p.Inner != "tls" {
+			if p.Inner != "tls" || p.HS != "" {
 				allTLS = false
 			}
 		}
@@ -2294,7 +2391,7 @@ func sniName(sc Script, ph Phase) string {
 
 // Signatures: <entry>[:attr=values...]:<symptom>; an attribute is mentioned only if the symptom does NOT occur for
 // all values that attribute takes among the enumerated requests of that entry.
-var attrOrder = []string{"listener", "port", "auth", "sni", "tls", "early", "outer", "peer", "first", "mitm", "origin", "after", "spell", "kind", "pad", "resp", "pipelined", "cls", "form", "pos", "via"}
+var attrOrder = []string{"listener", "port", "auth", "sni", "tls", "early", "outer", "peer", "first", "mitm", "origin", "after", "hs", "spell", "kind", "pad", "resp", "pipelined", "cls", "form", "pos", "via"}
 
 func computeDomains(hs []History) map[string]map[string]map[string]bool {
 	dom := map[string]map[string]map[string]bool{}
@@ -2385,6 +2482,9 @@ type Result struct {
 	Vs          []V      `json:"vs,omitempty"`
 	Evals       int64    `json:"evals"`
 	Requests    int64    `json:"requests"`
+	FailedHS    int64    `json:"failed_hs,omitempty"`
+	Enclosed    int64    `json:"enclosed,omitempty"`
+	NotServed   int64    `json:"not_served,omitempty"`
 	Transitions int64    `json:"transitions"`
 	Obs         []string `json:"obs,omitempty"`
 	Hang        bool     `json:"hang,omitempty"`
@@ -2398,6 +2498,7 @@ func evaluate(o *Outcome) *Result {
 	r := &Result{ID: o.H.ID, Hang: o.Hang, Crash: o.Crash, Setup: o.SetupErr != ""}
 	r.Vs = judge(o, st)
 	r.Evals, r.Requests = st.evals, st.requests
+	r.FailedHS, r.Enclosed, r.NotServed = st.failedHS, st.enclosed, st.notServed
 	for k := range st.obsKeys {
 		r.Obs = append(r.Obs, k)
 	}
@@ -2603,6 +2704,8 @@ func main() {
 		"nested space: only TLS inside the tunnel is enumerated (whether plaintext inside a CONNECT that itself arrived over TLS is an 'insecure session' is not decided by the statement); the CONNECT request itself, read from the outer TLS connection, is only judged for session sharing",
 		"the internal time cap (45 s quick / 9 min thorough) only stops the enumeration early (reported as incomplete)",
 		"hijack at the CONNECT request itself (before any decryption exists) belongs to C02 and is not enumerated",
+		"round 7, hsabort: the handshake failures enumerated are those the PROXY detects (no common cipher suite, unsupported versions, undecodable ClientHello in a complete record); the client sends cleartext only after it has read the proxy's alert, so no byte can be swallowed by the failed tls.Conn. A client-side abort (certificate rejected) followed by cleartext stays un-enumerated: which reader gets the bytes depends on segment timing. Whether the proxy keeps serving a connection after a failed handshake is not stated: an unanswered later CONNECT / an unserved cleartext request is counted, not reported. If a scripted failure does not fail (other crypto/tls defaults) the tunnel is judged as an ordinary decrypted one",
+		"round 7, cleartext CONNECT tunnel (or cleartext after a failed handshake) INSIDE a completed TLS connection (MITM'd tunnel or transparent-TLS listener): the requests are read from that TLS connection, so req.TLS must be its state (first sentence of the statement; the sentence about non-TLS tunnels is silent about req.TLS). Scheme, secure flag and upstream transport are claimed by both sentences with opposite values and are not judged there, except that a request presented as https must not leave in cleartext; delivery of the origin's response through the client's TLS session, session sharing, session values and the hijacker's connection are judged as everywhere",
 	}
 
 	nshards := runtime.NumCPU()
@@ -2739,7 +2842,7 @@ func main() {
 	// Aggregate.
 	var all []vref
 	executed, nontrivial, hung, crashed := 0, 0, 0, 0
-	var transitions, evals, requests int64
+	var transitions, evals, requests, failedHS, enclosedReqs, notServed int64
 	perSpace := map[string]int{}
 	perEntry := map[string]int{}
 	obs := map[string]bool{}
@@ -2763,6 +2866,9 @@ func main() {
 		transitions += r.Transitions
 		evals += r.Evals
 		requests += r.Requests
+		failedHS += r.FailedHS
+		enclosedReqs += r.Enclosed
+		notServed += r.NotServed
 		for _, x := range r.Obs {
 			obs[x] = true
 		}
@@ -2847,15 +2953,18 @@ func main() {
 	rep.Coverage["histories_per_space"] = perSpace
 	rep.Coverage["histories_per_entry"] = perEntry
 	rep.Coverage["requests_judged"] = requests
+	rep.Coverage["round7_tunnels_with_failed_handshake"] = failedHS
+	rep.Coverage["round7_requests_read_from_enclosing_tls_connection"] = enclosedReqs
+	rep.Coverage["round7_connects_not_served_after_failed_handshake"] = notServed
 	rep.Coverage["histories_hung"] = hung
 	rep.Coverage["histories_crashed_worker"] = crashed
 	rep.Coverage["worker_processes"] = nshards
-	rep.Coverage["rule"] = "every history of the spaces core (listener x tunnel content x authority port x form sequences of length 1..N x hijack position/handle), and nested (CONNECT over an outer TLS connection to the proxy itself, then a MITM'd inner handshake), and in the thorough tier config (core with N<=2 x authority spelling x SNI x client TLS profile x early data), pair (two interleaved tunnels on two connections) and reconnect (plaintext tunnel then a second CONNECT on the same connection) is run once through the real proxy; states = distinct per-request modifier views (entry, space, listener, scenario attributes, scheme, secure, TLS state and version, host, response seen); transitions = modifier invocations; non-trivial = anything TestIntegrationMITM/TransparentMITM do not do: >=2 requests on the decrypted connection, a non-origin-form target, a hijack, or any non-default configuration/topology"
+	rep.Coverage["rule"] = "(round 7: plus the spaces innerplain = cleartext CONNECT tunnels opened inside a decrypted connection, and hsabort = a tunnel whose TLS handshake starts but fails on the proxy side, after which the client continues in cleartext on the same connection; see bounds) every history of the spaces core (listener x tunnel content x authority port x form sequences of length 1..N x hijack position/handle), and nested (CONNECT over an outer TLS connection to the proxy itself, then a MITM'd inner handshake), and in the thorough tier config (core with N<=2 x authority spelling x SNI x client TLS profile x early data), pair (two interleaved tunnels on two connections) and reconnect (plaintext tunnel then a second CONNECT on the same connection) is run once through the real proxy; states = distinct per-request modifier views (entry, space, listener, scenario attributes, scheme, secure, TLS state and version, host, response seen); transitions = modifier invocations; non-trivial = anything TestIntegrationMITM/TransparentMITM do not do: >=2 requests on the decrypted connection, a non-origin-form target, a hijack, or any non-default configuration/topology"
 	rep.Coverage["exhaustive"] = rep.Incomplete == "" && executed == len(hs)
 	if tier == "thorough" {
-		rep.Coverage["bounds"] = "core: N<=4 requests, 5 listeners, 2 tunnel contents (transparent: TLS only), ports {443,8443}, 4 target forms per request, 5 hijack variants at the last request (= every index 1..4); nested: 3 TLS listener layerings x outer profile {default, TLS1.2} x N<=3 x 5 hijack variants; config: N<=2 x 6 authority spellings x 2 SNI x 4 TLS profiles x 2 early-data modes (minus combinations that are core or impossible); pair: 2 connections x N<=2 each, all content combinations; reconnect: 1..2 plaintext requests then second CONNECT with TLS/plaintext and 1..2 requests"
+		rep.Coverage["bounds"] = "core: N<=4 requests, 5 listeners, 2 tunnel contents (transparent: TLS only), ports {443,8443}, 4 target forms per request, 5 hijack variants at the last request (= every index 1..4); nested: 3 TLS listener layerings x outer profile {default, TLS1.2} x N<=3 x 5 hijack variants; config: N<=2 x 6 authority spellings x 2 SNI x 4 TLS profiles x 2 early-data modes (minus combinations that are core or impossible); pair: 2 connections x N<=2 each, all content combinations; reconnect: 1..2 plaintext requests then second CONNECT with TLS/plaintext and 1..2 requests; round 7: innerplain (5 listeners x client/outer profile {default, TLS1.2}; first MITM'd tunnel with 0..1 requests on CONNECT proxies; inner cleartext tunnel N<=2 x 5 hijack variants, N=3 without hijack; early data N<=2; a further MITM'd tunnel inside N<=2) and hsabort (5 listeners x 3 failure kinds x continuation {cleartext N<=2; second CONNECT plain N<=3, N<=2 x 3 hijack variants, early data N<=2; second CONNECT TLS N<=2 x 3 hijack variants; cleartext request then second CONNECT; plaintext tunnel before the failing one})"
 	} else {
-		rep.Coverage["bounds"] = "core: N<=2 requests, 5 listeners, 2 tunnel contents (transparent: TLS only), ports {443,8443}, 4 target forms per request, 5 hijack variants at the last request; nested: 3 TLS listener layerings x outer profile {default, TLS1.2} x N<=2 x 5 hijack variants; config (reduced): 3 authority spellings x {plain, shaped} x {TLS, plaintext} x form sequences of length 1..2 containing nohost; pair (reduced): one request per connection; reconnect (reduced): first tunnel {plaintext, TLS} with one request, second CONNECT to another authority with {nohost (3 spellings), origin} in both orders; plus reduced hostless, traffic, upfail, hsfail, variant, downstream spaces"
+		rep.Coverage["bounds"] = "core: N<=2 requests, 5 listeners, 2 tunnel contents (transparent: TLS only), ports {443,8443}, 4 target forms per request, 5 hijack variants at the last request; nested: 3 TLS listener layerings x outer profile {default, TLS1.2} x N<=2 x 5 hijack variants; config (reduced): 3 authority spellings x {plain, shaped} x {TLS, plaintext} x form sequences of length 1..2 containing nohost; pair (reduced): one request per connection; reconnect (reduced): first tunnel {plaintext, TLS} with one request, second CONNECT to another authority with {nohost (3 spellings), origin} in both orders; plus reduced hostless, traffic, upfail, hsfail, variant, downstream spaces; round 7: innerplain (5 listeners; CONNECT proxies: MITM'd tunnel with 1 request then CONNECT :80 + plain HTTP inside; TLS listeners: CONNECT :80 + plain HTTP over the client's TLS session; N<=2 inner requests, all form sequences, 3 hijack variants; + early data N=1; + a further MITM'd tunnel inside, N=1) and hsabort (5 listeners x failure kind {ecdsa_only, tls11_only, truncated_hello} x continuation {cleartext requests N<=2, second CONNECT plain N<=2 (+ early data N=1), second CONNECT TLS N=1}, all form sequences)"
 	}
 	rep.Finish()
 }
